@@ -44,13 +44,9 @@ func (i *interpreter) boundInt(v value, lo, hi int64, what string) int64 {
 		return x
 	}
 	b := i.path.B
-	w, signed, _ := intInfo(s.K)
-	var in *smt.Term
-	if signed {
-		in = b.And(b.BVBin(smt.OBVSle, b.BVC(w, uint64(lo)), s.T), b.BVBin(smt.OBVSle, s.T, b.BVC(w, uint64(hi))))
-	} else {
-		in = b.And(b.BVBin(smt.OBVUle, b.BVC(w, uint64(lo)), s.T), b.BVBin(smt.OBVUle, s.T, b.BVC(w, uint64(hi))))
-	}
+	_, signed, _ := intInfo(s.K)
+	t64 := b.Resize(s.T, 64, signed)
+	in := b.And(b.BVBin(smt.OBVSle, b.BVC(64, uint64(lo)), t64), b.BVBin(smt.OBVSle, t64, b.BVC(64, uint64(hi))))
 	if !i.decideT(in) {
 		panic(goPanic(fmt.Sprintf("runtime error: slice bounds out of range [%s symbolic] (allowed %d..%d)", what, lo, hi)))
 	}
